@@ -36,7 +36,13 @@ Sampled == {Walk(Start, 3 + (j % 5)) : j \in 1..(IF Quick THEN 300 ELSE 6000)}
 Cases == {[hist |-> h, probe |-> <<b, k>>] : h \in Exhaustive \cup Sampled, b \in Backends, k \in ProbeKinds}
 \* the probe backend must exist
 Valid == {c \in Cases : c.probe[1] \in Have(c.hist)}
-ASSUME LET S == SetToSeq(Valid) IN ndJsonSerialize(IOEnv.VERIF_OUT, [i \in 1..Len(S) |-> [id |-> i] @@ S[i]])
+\* what a PROCESS remembers (caches on classes and modules): one conversion, then the probe - each of these cases is
+\* driven in an interpreter started for it alone (the others share long-lived worker processes, whose caches are warm)
+ProcCases == {[hist |-> <<Start[1], <<"rule", "A", k>>>>, probe |-> <<"A", p>>, newproc |-> TRUE] : k \in Kinds, p \in ProbeKinds}
+ASSUME LET S == SetToSeq(Valid)
+           P == SetToSeq(ProcCases)
+       IN  ndJsonSerialize(IOEnv.VERIF_OUT, [i \in 1..Len(S) |-> [id |-> i, newproc |-> FALSE] @@ S[i]]
+                                            \o [i \in 1..Len(P) |-> [id |-> 9000000 + i] @@ P[i]])
 Init == x = 0
 Next == UNCHANGED x
 =============================================================================
